@@ -46,12 +46,16 @@ func c14(c *Ctx) {
 	c.Rule("R2", "E7 unit rule", "the throttle handed to the retry loop is a time.Duration with a unit: Retry-After seconds × time.Second; gRPC RetryDelay.AsDuration()", 6)
 	c.Rule("R3", "E3 path shape in six copies", "Config.RequestFunc: disabled ⇒ exactly one attempt; success ⇒ nil; not retryable ⇒ the error is returned before any wait; both elapsed-time tests precede the wait; wait argument is max(throttle, backoff); the wait's context error returns", 36)
 	c.Rule("R4", "E3 ordering + E5", "HTTP: payload marshalled once outside the retried closure, request.reset(ctx) before client.Do on every attempt, 2xx never returns the partial-success error (it is handed to otel.Handle); gRPC: partial success handled, not returned", 12)
+	c.Rule("R5", "E3 must-pass", "a client that interrupts in-flight retries through a stop channel closes it on every path of Stop (Stop is called once: an early return before the close leaves a retrying export running until MaxElapsedTime)", 1)
+	c.Rule("R6", "E5 ownership", "the request body that is re-sent on every attempt does not alias memory that goes back to a sync.Pool when newRequest returns (a concurrent export would overwrite the bytes a pending retry is going to send)", 3)
 	for _, m := range otlpClients {
 		ix := c.Index(m.dir, m.pkg)
 		if ix == nil {
 			continue
 		}
 		if m.kind == "http" {
+			c14PooledBody(c, ix, m)
+			c14Stop(c, ix, m)
 			c14HTTP(c, ix, m)
 		} else {
 			c14GRPC(c, ix, m)
@@ -396,6 +400,30 @@ func c14GRPC(c *Ctx, ix *PkgIndex, m otlpMod) {
 		return
 	}
 	always := map[string]bool{"Canceled": true, "DeadlineExceeded": true, "Aborted": true, "OutOfRange": true, "Unavailable": true, "DataLoss": true}
+	// locals holding throttleDelay's first result ("the status carries a RetryInfo")
+	hasInfo := map[types.Object]bool{}
+	inspectNoLit(fn.Body(), func(n ast.Node) bool {
+		if as, ok := n.(*ast.AssignStmt); ok && len(as.Lhs) == 2 && len(as.Rhs) == 1 && callToDecl(info, td)(unparen(as.Rhs[0])) {
+			if o := objOf(info, as.Lhs[0]); o != nil {
+				// assigned once
+				n := 0
+				inspectNoLit(fn.Body(), func(m ast.Node) bool {
+					if a2, ok := m.(*ast.AssignStmt); ok {
+						for _, l := range a2.Lhs {
+							if objOf(info, l) == o {
+								n++
+							}
+						}
+					}
+					return true
+				})
+				if n == 1 {
+					hasInfo[o] = true
+				}
+			}
+		}
+		return true
+	})
 	for _, k := range enumConsts(lookupType(codesPkg, "Code")) {
 		if k.Name() == "_maxCode" {
 			continue
@@ -419,6 +447,8 @@ func c14GRPC(c *Ctx, ix *PkgIndex, m otlpMod) {
 			case len(rs.Results) == 2 && info.Types[rs.Results[0]].Value != nil:
 				got = append(got, info.Types[rs.Results[0]].Value.String())
 			case len(rs.Results) == 1 && callToDecl(info, td)(unparen(rs.Results[0])):
+				got = append(got, "iff-RetryInfo")
+			case len(rs.Results) == 2 && hasInfo[objOf(info, rs.Results[0])]:
 				got = append(got, "iff-RetryInfo")
 			default:
 				got = append(got, "?")
@@ -893,4 +923,127 @@ func partialSuccessArm(info *types.Info, f *FuncInfo) (found, handled, returned 
 		return true
 	})
 	return
+}
+
+// c14Stop: if the client type has a stop channel (a chan field that a retry wait selects on and Stop closes), every
+// entry→exit path of Stop passes the close (directly or inside the sync.Once literal passed to Do).
+func c14Stop(c *Ctx, ix *PkgIndex, m otlpMod) {
+	info := ix.Pkg.TypesInfo
+	fStop := lookupField(ix.Pkg, "client", "stopCh")
+	if fStop == nil {
+		return // this client has no stop channel (shutdown swaps the client instead)
+	}
+	fn := c.Fn(ix, "R5", "(*client).Stop")
+	if fn == nil {
+		return
+	}
+	g := ix.FG(fn)
+	closes := func(n ast.Node) bool {
+		call, ok := n.(*ast.CallExpr)
+		return ok && builtinName(info, call) == "close" && len(call.Args) == 1 && isField(info, call.Args[0], fStop)
+	}
+	through := toSet(g.Match(func(n ast.Node) bool {
+		if closes(n) {
+			return true
+		}
+		// X.Do(func() { … close(stopCh) … })
+		call, ok := n.(*ast.CallExpr)
+		if !ok || !isCallTo(info, call, "(*sync.Once).Do") || len(call.Args) != 1 {
+			return false
+		}
+		lit, ok := unparen(call.Args[0]).(*ast.FuncLit)
+		if !ok {
+			return false
+		}
+		hit := false
+		ast.Inspect(lit.Body, func(m ast.Node) bool {
+			if closes(m) {
+				hit = true
+			}
+			return true
+		})
+		return hit
+	}))
+	seen, parent := g.ReachFromEntry(func(x *GNode) bool { return through[x] }, nil)
+	c.Analysed(fn)
+	c.Check(len(through) > 0 && !seen[g.Exit], "R5", short(m)+"|(*client).Stop|stop channel closed on every path", at(ix.M, fn.Pos()), itoa(len(through))+" close site(s) cut every entry→exit path",
+		"Stop can return without closing the stop channel ("+g.pathLines(parent, g.Exit)+"): an export that is waiting to retry is not interrupted by Shutdown")
+}
+
+// c14PooledBody: in newRequest, no slice view of a pooled *bytes.Buffer (Bytes/Next/AvailableBuffer) is taken unless it is
+// copied on the spot: the buffer is handed back to its pool (deferred Put) while the request — and its retries — still read
+// the body.
+func c14PooledBody(c *Ctx, ix *PkgIndex, m otlpMod) {
+	info := ix.Pkg.TypesInfo
+	var fn *FuncInfo
+	for _, f := range sortedFuncs(ix.Funcs) {
+		if strings.HasSuffix(f.Name, ").newRequest") || f.Name == "newRequest" {
+			fn = f
+		}
+	}
+	if fn == nil {
+		c.Missing("R6", short(m)+": newRequest")
+		return
+	}
+	pooled := map[types.Object]bool{}
+	inspectNoLit(fn.Body(), func(n ast.Node) bool {
+		as, ok := n.(*ast.AssignStmt)
+		if !ok || len(as.Rhs) != 1 || len(as.Lhs) < 1 {
+			return true
+		}
+		r := unparen(as.Rhs[0])
+		if ta, ok := r.(*ast.TypeAssertExpr); ok {
+			r = unparen(ta.X)
+		}
+		if call, ok := r.(*ast.CallExpr); ok && isCallTo(info, call, "(*sync.Pool).Get") {
+			if o := objOf(info, as.Lhs[0]); o != nil {
+				pooled[o] = true
+			}
+		}
+		return true
+	})
+	bad := ""
+	var stack []ast.Node
+	ast.Inspect(fn.Body(), func(n ast.Node) bool {
+		if n == nil {
+			stack = stack[:len(stack)-1]
+			return true
+		}
+		stack = append(stack, n)
+		call, ok := n.(*ast.CallExpr)
+		if !ok {
+			return true
+		}
+		recv, meth := methodCall(info, call)
+		if meth == nil || recv == nil || !pooled[objOf(info, recv)] {
+			return true
+		}
+		switch meth.FullName() {
+		case "(*bytes.Buffer).Bytes", "(*bytes.Buffer).Next", "(*bytes.Buffer).AvailableBuffer":
+		default:
+			return true
+		}
+		// copied on the spot?
+		copied := false
+		if len(stack) >= 2 {
+			if outer, ok := stack[len(stack)-2].(*ast.CallExpr); ok {
+				if isCallTo(info, outer, "bytes.Clone") || isCallTo(info, outer, "slices.Clone") {
+					copied = true
+				}
+				if builtinName(info, outer) == "append" && len(outer.Args) >= 2 && outer.Ellipsis.IsValid() && unparen(outer.Args[1]) == ast.Expr(call) {
+					copied = true
+				}
+				if builtinName(info, outer) == "copy" && len(outer.Args) == 2 && unparen(outer.Args[1]) == ast.Expr(call) {
+					copied = true
+				}
+			}
+		}
+		if !copied {
+			bad = exprStr(call) + " at " + ix.M.posStr(call.Pos())
+		}
+		return true
+	})
+	c.Analysed(fn)
+	c.Check(bad == "", "R6", short(m)+"|newRequest|request body does not alias pooled memory", at(ix.M, fn.Pos()), itoa(len(pooled))+" pooled object(s), none exposes its bytes",
+		"the body handed to the request is a view of a pooled buffer ("+bad+"): after newRequest returns the buffer is reused by other exports while this request may still be retried with it")
 }
